@@ -616,7 +616,8 @@ class Spectrum:
         wave = self.wave[indices]
         # integrate in floating point whatever the dtype of the samples
         # (the sums wrap around for narrow integers and are logical ORs for booleans)
-        value = np.asarray(self.value[indices], dtype=float)
+        value = np.asarray(self.value[indices])
+        value = value.astype(np.result_type(value.dtype, float))
 
         if method == 'simps':
             result = scipy.integrate.simpson(x=wave, y=value)
